@@ -98,6 +98,18 @@ Proof.
 Qed.
 Print Assumptions C17_stable_sort.
 
+(* The combining-class sort as a function (`sort_p`): it is the whole default path and the last step
+   of the Thai/Lao, Indic and Khmer paths, whose theorems below mention it. *)
+Theorem C17_sort_p : forall class l,
+  sort_by_modified_combining_class class l = Ok (sort_p class l) /\
+  Permutation l (sort_p class l) /\ length (sort_p class l) = length l /\
+  (forall i z, nth_error l i = Some z -> class z = 0 -> nth_error (sort_p class l) i = Some z) /\
+  map (fun c => class c =? 0) (sort_p class l) = map (fun c => class c =? 0) l /\
+  (forall x r y, l = x ++ r ++ y -> ends_with_base class x -> marks class r -> starts_with_base class y ->
+     sort_p class l = sort_p class x ++ sort_by_key class r ++ sort_p class y).
+Proof. exact sort_p_props. Qed.
+Print Assumptions C17_sort_p.
+
 (* ---- 3. Arabic ---- *)
 (* A permutation that rearranges every maximal run of marks within itself. *)
 Theorem C17_arabic_is_run_local_permutation : forall class x r y tag out,
